@@ -1,4 +1,6 @@
 """C01 - a circuit acts as the ordered product of its gates on the named qubits."""
+import json
+
 import numpy as np
 from hypothesis import strategies as st
 
@@ -246,6 +248,84 @@ def o_concat(spec):
     return {"classes": ["different_widths"] if na != nb else [], "nontrivial": na != nb}
 
 
+# ------------------------------------------------------------------ (f) sessions: related circuits in one process
+# A result must depend only on the circuit, not on what was evaluated before it. Each case is
+# a short session of circuits on the same register evaluated one after another in ONE process;
+# custom gates reuse a small pool of names with different matrices (a parameter sweep that
+# re-creates "U" every iteration) and the circuits reuse the same index tuples, so any
+# memoisation keyed on less than the full content of a gate shows up as a stale matrix.
+
+
+@st.composite
+def session_specs(draw, tier):
+    n = draw(st.integers(2, 4 if tier == "quick" else 5))
+    tuples = [list(t) for t in draw(st.lists(st.permutations(list(range(n))), min_size=1, max_size=2))]
+    circuits = []
+    for _ in range(draw(st.integers(2, 4))):
+        ops = []
+        for _ in range(draw(st.integers(1, 4))):
+            kind = draw(st.integers(0, 3))
+            if kind <= 1:
+                k = draw(st.integers(1, min(2, n)))
+                g = {"g": "custom", "k": k, "mseed": draw(st.integers(0, 4)), "p": [],
+                     "name": draw(st.sampled_from(["U", "V"])),
+                     "mods": draw(st.sampled_from([[], [], [["dag"]], [["c", 1]], [["pow", 2]]]))}
+                if cgen.gate_arity(g) > n:
+                    g["mods"] = []
+            elif kind == 2:
+                nm = draw(st.sampled_from(["RX", "RZ", "PHASE", "XX", "CPHASE", "U3"]))
+                if cgen.TABLE[nm][0] > n:
+                    nm = "RX"
+                base = draw(st.sampled_from([0.5, -1.0, -2.0, 1.0]))
+                delta = draw(st.sampled_from([0.0, 0.0, 1e-9, 3e-7, -2.5e-9]))
+                g = {"g": nm, "p": [base + delta] + [0.25] * (cgen.TABLE[nm][1] - 1), "mods": []}
+            else:
+                g = draw(cgen.gate_specs(maxq=min(n, 3), custom=False))
+            tup = draw(st.sampled_from(tuples))
+            g["q"] = tup[: cgen.gate_arity(g)]
+            ops.append(g)
+        circuits.append({"n": n, "width": n, "ops": ops})
+    return {"circuits": circuits, "sseed": draw(st.integers(0, 10 ** 6))}
+
+
+def _session_reuse(spec):
+    """a custom-gate name that occurs with two different matrices on the same index tuple"""
+    seen = {}
+    for c in spec["circuits"]:
+        for o in c["ops"]:
+            if o["g"] == "custom":
+                key = (o["name"], o["k"], tuple(o["q"]), json.dumps(o["mods"]))
+                if key in seen and seen[key] != o["mseed"]:
+                    return True
+                seen.setdefault(key, o["mseed"])
+    return False
+
+
+def o_session(spec):
+    from orquestra.quantum.runners import SymbolicSimulator
+
+    sim = SymbolicSimulator()
+    for i, cs in enumerate(spec["circuits"]):
+        c = cgen.build_circuit(cs)
+        n = cs["n"]
+        U = ref.npm(must(c.to_unitary, "to_unitary"))
+        R = own_matrix_product(c, n)
+        require(ref.close(U, R), lambda: f"circuit {i} of the session: to_unitary differs from the ordered product of its own gates' matrices, max|d|={ref.maxdiff(U, R):.3g}")
+        R2 = cgen.ref_circuit_matrix(cs, n)
+        require(ref.close(U, R2), lambda: f"circuit {i} of the session: to_unitary differs from closed-form product, max|d|={ref.maxdiff(U, R2):.3g}")
+        init = cgen.state_from_seed(n, spec["sseed"] + i)
+        state = init.copy()
+        for op in c.operations:
+            state = must(lambda: op.apply(state), "GateOperation.apply")
+        state = np.asarray(state, dtype=complex).reshape(-1)
+        require(ref.close(state, R @ init), lambda: f"circuit {i} of the session: op-by-op application differs, max|d|={ref.maxdiff(state, R @ init):.3g}")
+        wf = must(lambda: sim.get_wavefunction(c, init.copy()), "get_wavefunction(init)")
+        a = np.asarray(wf.amplitudes, dtype=complex).reshape(-1)
+        require(ref.close(a, R @ init), lambda: f"circuit {i} of the session: simulator state differs, max|d|={ref.maxdiff(a, R @ init):.3g}")
+    reuse = _session_reuse(spec)
+    return {"classes": ["name_reused_with_other_matrix"] if reuse else [], "nontrivial": reuse}
+
+
 SUBCHECKS = [
     SubCheck("to_unitary", o_unitary, strategy=lambda t: cgen.circuit_specs(**_sizes(t)),
              nontrivial=_nontrivial, classes=_classes, examples=(400, 1500), shards=(4, 16), fork_timeout=20,
@@ -261,6 +341,9 @@ SUBCHECKS = [
     SubCheck("concat", o_concat, strategy=concat_specs, examples=(300, 1000), shards=(2, 6), fork_timeout=20,
              rule="c1+c2 / c+op: width = max, action composes; non-trivial = different widths"),
 ]
+SUBCHECKS.append(SubCheck("session", o_session, strategy=session_specs, examples=(150, 800), shards=(3, 8), fork_timeout=40,
+                          rule="2-4 related circuits evaluated one after another in one process (custom-gate names reused with different matrices on the same index tuples, nearly equal angles): every result depends on its circuit only; non-trivial = a name reused with another matrix on the same tuple"))
+SUBCHECKS[-1].expected_classes = ["name_reused_with_other_matrix"]
 for _s in SUBCHECKS[:3]:
     _s.expected_classes = ["permuted", "non_adjacent", "arity3", "arity4", "idle", "wrapped", "custom"]
 SUBCHECKS[3].expected_classes = ["multiphase", "boundary", "segments>=3"]
